@@ -205,3 +205,184 @@ class DsCompute(Contract):
                            [inst, D == e_d, nonpar, X == (s2 * r1 - s1 * r2) / D, Y == (-c2 * r1 + c1 * r2) / D], "post",
                            f"vertex j lies on tangent line j+{off}: consecutive vertices share a line, so each edge lies on a (1-alpha)-quantile tangent line "
                            "(from the three formula obligations above and the instance of lemma.vertex_on_lines)")
+
+
+# =============================================================================== AND / OR contours (C04)
+from vf.engine.values import Builtin as _Builtin, ExcClass as _ExcClass  # noqa: E402
+
+PE = T.uf("PE", "real", "real", "real")  # spec: fraction of the sample exceeding (a, b) in the AND / OR sense
+WARN = z3.Bool("WARN_precision_not_reached")
+
+
+class AndOrBase(Contract):
+    """search along each ray: loop invariants (inner while: the stored vector is a positive multiple of the unit
+    vector and current_pe is the empirical exceedance of THAT vector; outer for: every finished point is good)"""
+    cls = None
+    is_or = False
+    max_paths = 200
+
+    def case_label(self, case):
+        return f"sample={case['sample']}"
+
+    def exceed_count(self, itp, x, y, a, b):
+        """count of sample points exceeding (a, b): both variables (AND) / at least one (OR), strict comparisons"""
+        cx = itp.cx
+        xg, yg = x.getter(), y.getter()
+        if self.is_or:
+            mask = SArr.fresh(x.shape, lambda idx: T.lor(T.gt(xg(idx), a), T.gt(yg(idx), b)), "bool")
+        else:
+            mask = SArr.fresh(x.shape, lambda idx: T.land(T.gt(xg(idx), a), T.gt(yg(idx), b)), "bool")
+        return term_of(itp.lib.count_mask(itp, mask))
+
+    def define_pe(self, itp, env, a, b):
+        """definition instance: PE(a, b) = (number of sample points exceeding (a, b)) / n"""
+        x, y = env.lookup("x"), env.lookup("y")
+        c = self.exceed_count(itp, x, y, a, b)
+        n = x.shape[0]
+        itp.cx.fact(T.eq(PE(T.zr(a), T.zr(b)), T.div(c, n)), "spec:PE(a,b) = fraction of the sample exceeding (a,b) (strict; AND: both variables, OR: at least one)")
+
+    def setup(self, itp, case):
+        me = self
+        q = CT + self.cls + "._compute"
+
+        def warn(itp_, a, k):
+            itp_.cx.event("warn", "UserWarning")
+            itp_.cx.assume(WARN, "the precision warning has been emitted")
+            return None
+        itp.lib.table["warnings.warn"] = _Builtin("warnings.warn", warn)
+
+        def w_havoc(itp_, env):
+            cx = itp_.cx
+            env.vars["current_vector"] = sym_array(cx, f"h_current_vector{cx.ordinal('hv')}", (2, 1), owner="call")
+            env.vars["current_pe"] = Sym(cx.fresh("h_current_pe", "real"))
+            return {"current_vector", "current_pe"}
+
+        def w_inv(itp_, env, _):
+            cx = itp_.cx
+            rd, rs = term_of(env.lookup("rel_dist")), term_of(env.lookup("rel_step_size"))
+            nr = term_of(env.lookup("nr_iterations"))
+            pe = term_of(env.lookup("current_pe"))
+            uv = env.lookup("unity_vector")
+            u0, u1 = uv.get((0, 0)), uv.get((1, 0))
+            out = [("step_positive", T.land(T.ge(T.sub(rd, rs), Fraction(1, 10)), T.gt(rs, 0))),
+                   ("iterations", T.land(T.ge(nr, 0), T.lt(nr, 100)))]
+            cv = env.lookup("current_vector")
+            if isinstance(cv, SArr):
+                c0, c1 = cv.get((0, 0)), cv.get((1, 0))
+                me.define_pe(itp_, env, c0, c1)
+                out.append(("vector_and_pe", T.implies(T.ge(nr, 1), T.land(T.eq(T.mul(c0, u1), T.mul(c1, u0)), T.gt(c0, 0), T.eq(pe, PE(T.zr(c0), T.zr(c1)))))))
+                out.append(("no_iteration_yet", T.implies(T.eq(nr, 0), T.eq(pe, 0))))
+            else:
+                out.append(("no_iteration_yet", T.land(T.eq(nr, 0), T.eq(pe, 0))))
+            return out
+
+        def w_exit(itp_, env, how):
+            return []
+        itp.loop_specs[(q, 1)] = LoopSpec(w_inv, w_havoc)
+
+        def o_havoc(itp_, env):
+            if me.is_or:
+                cx = itp_.cx
+                from vf.engine.values import SList
+                for nm in ("coords_x", "coords_y"):
+                    L = cx.fresh("h_len", "int")
+                    cx.assume(T.ge(L, 0))
+                    f = T.uf(f"h_{nm}!{cx.ordinal('hv')}", "int", "real")
+                    env.vars[nm] = SList(L, lambda i, f=f: Sym(f(T.zi(i))), nm)
+                    itp_.scratch["len0_" + nm] = L
+                return {"coords_x", "coords_y"}
+            return set()
+
+        def o_inv(itp_, env, kc):
+            cx = itp_.cx
+            cxs, cys = env.lookup("coords_x"), env.lookup("coords_y")
+            me.env_x, me.env_y = env.lookup("x"), env.lookup("y")
+            if me.is_or:
+                from vf.engine.values import SList
+                if not isinstance(cxs, SList):
+                    return [("lists_empty", len(cxs) == 0 and len(cys) == 0)]
+                L = cxs.length
+                return [("same_length", T.eq(cxs.length, cys.length)),
+                        ("points_good", cx.forall(["int"], lambda r: T.implies(T.land(T.ge(r, 0), T.lt(r, L)), me.good_or(itp_, env, term_of(cxs.elem(r)), term_of(cys.elem(r))))))]
+            thetas = env.lookup("thetas")
+            xg, yg, tg = cxs.getter(), cys.getter(), thetas.getter()
+            # universally quantified invariant through an ARBITRARY but fixed index r0 (no other index is needed to
+            # re-establish it), which keeps the queries quantifier-free
+            r0 = cx.sym("r0", "int")
+            return [("point_r0_good", T.implies(T.land(T.ge(r0, 0), T.lt(r0, kc), T.lt(r0, thetas.shape[0])), me.good(itp_, xg((r0,)), yg((r0,)), tg((r0,)))))]
+        itp.loop_specs[(q, 0)] = LoopSpec(o_inv, o_havoc)
+
+    def within(self, a, b):
+        al, err = self.alpha.t, self.err.t
+        d = PE(T.zr(a), T.zr(b)) - al
+        return z3.Or(WARN, z3.And(d <= err * al, -d <= err * al))
+
+    def good(self, itp, a, b, theta):
+        """point (a, b) lies on the ray of angle theta (degrees) at positive distance and has exceedance alpha within tolerance (unless warned)"""
+        cx = itp.cx
+        ang = T.mul(T.div(theta, 180), mathfn.pi(cx))
+        c, s = mathfn.apply(cx, "cos", ang), mathfn.apply(cx, "sin", ang)
+        return z3.And(T.zr(a) * T.zr(s) == T.zr(b) * T.zr(c), T.zr(a) > 0, self.within(a, b))
+
+    def good_or(self, itp, env, a, b):
+        return z3.And(T.zr(a) > 0, T.zr(b) > 0, self.within(a, b))
+
+    def base_inputs(self, itp, case, extra):
+        cx = itp.cx
+        cx.assumed_safety.append((r"_compute::safe\.div#\d+", "alpha > 0 and a non-empty sample"))
+        self.alpha = real(cx, "alpha")
+        cx.assume(T.land(T.gt(self.alpha.t, 0), T.lt(self.alpha.t, 1)))
+        self.err = real(cx, "allowed_error")
+        cx.assume(T.land(T.gt(self.err.t, 0), T.lt(self.err.t, 1)), "requires 0 < allowed_error < 1 (otherwise the search loop is never entered)")
+        self.deg = real(cx, "deg_step")
+        cx.assume(T.gt(self.deg.t, 0))
+        self.n = integer(cx, "n")
+        self.model = ModelStub(cx, 2)
+        m = cx.sym("m", "int")
+        cx.assume(T.ge(m, 1))
+        self.sample = sym_array(cx, "sample", (m, 2))
+        fields = {"model": self.model, "alpha": self.alpha, "n": self.n, "deg_step": self.deg, "sample": self.sample if case["sample"] == "given" else None, "allowed_error": self.err}
+        fields.update(extra)
+        self.obj = SObj(CT + self.cls, fields, owner="call")
+        # marginal quantiles are positive (non-negative metocean variables)
+        for i in (1, 2):
+            cx.assume(T.gt(cx.sym(f"marginal_q{i}", "real"), 0), "marginal (1-alpha)-quantiles are positive")
+        return [self.obj], {}
+
+
+@contract(CT + "AndContour._compute", ["C04", "C19"], [dict(sample="given"), dict(sample="drawn")], name="and.compute")
+class AndCompute(AndOrBase):
+    """AND contour: every searched point lies on its ray (theta_r = r * deg_step < 90) at positive distance and the
+    fraction of the sample exceeding it in BOTH variables (strictly) is alpha within allowed_error * alpha, unless the
+    precision warning was emitted; the contour is closed with the final point (0, 0)"""
+    cls = "AndContour"
+
+    def inputs(self, itp, case):
+        return self.base_inputs(itp, case, {})
+
+    def setup(self, itp, case):
+        super().setup(itp, case)
+
+    def post(self, itp, case, inp, out):
+        cx = itp.cx
+        if out.outcome != "return":
+            cx.oblige("post.returns", False, "post", f"raised {out.exc}: {out.msg}")
+            return
+        coords = self.obj.fields.get("coordinates")
+        if not isinstance(coords, SArr) or coords.ndim != 2:
+            cx.oblige("post.structure", False, "post")
+            return
+        m = T.sub(coords.shape[0], 1)
+        r = cx.sym("r0", "int")  # the arbitrary index of the loop invariant
+        cx.assume(T.land(T.ge(r, 0), T.lt(r, m)))
+        theta = T.mul(r, self.deg.t)
+        cx.oblige("post.closure", T.land(T.eq(coords.get((m, 0)), 0), T.eq(coords.get((m, 1)), 0)), "post", "AND: the final point is (0, 0)")
+        a, b = coords.get((r, 0)), coords.get((r, 1))
+        # thetas[r] = r * deg_step (arange from 0)
+        ang = T.mul(T.div(theta, 180), mathfn.pi(cx))
+        c, s = mathfn.apply(cx, "cos", ang), mathfn.apply(cx, "sin", ang)
+        cx.oblige("post.points.on_ray", T.land(T.eq(T.mul(a, s), T.mul(b, c)), T.gt(a, 0)), "post", "searched point r lies on the ray of angle r * deg_step at positive distance")
+        cx.oblige("post.points.exceedance", self.within(a, b), "post",
+                  "unless the precision warning is emitted: |fraction exceeding in both variables - alpha| <= allowed_error * alpha")
+        if case["sample"] == "given":
+            cx.oblige("frame.sample", self.sample.buf.writes == 0, "frame")
